@@ -989,6 +989,7 @@ func (vc *VC) posOf(in ssa.Instruction) token.Pos {
 }
 
 func (vc *VC) execInstr(fr *Frame, in ssa.Instruction) {
+	vc.curInstr = in
 	pos := vc.posOf(in)
 	switch in := in.(type) {
 	case *ssa.DebugRef:
